@@ -107,17 +107,20 @@ Consume ==
 ClientSyncs == {"SendRequest", "SendCopy", "ReceiveResponse", "UpdateClient"}
 ServerSyncs == {"ReceiveRequest", "HasRequests", "SendResponse", "SendCopyResponse", "UpdateServer"}
 
+\* internal steps the code can take inside the API call recorded as e
+SilentFor(e) ==
+    \/ /\ e.a \in ClientSyncs /\ cst[e.c] = "alive" /\ ~SyncedC(e.c) /\ UpdateClient(e.c)
+    \/ /\ e.a \in ServerSyncs /\ sst[e.s] = "alive" /\ ~SyncedS(e.s) /\ UpdateServer(e.s)
+    \/ /\ e.a = "ReceiveResponse"
+       /\ \E p \in pend[e.c] : p.n = e.n /\ \E s \in Servers : DropStale(e.c, s, p.ch)
+    \/ /\ e.a \in ClientSyncs /\ \E s \in Servers : ExpireGone(e.c, s)
+    \/ /\ e.a = "ReceiveRequest" /\ \E c \in Clients : SkipClosed(e.s, c)
+    \/ /\ e.a \in ServerSyncs /\ \E c \in Clients : LoseDead(e.s, c)
+
 Silent ==
     /\ l <= NRec
     /\ Ev.k = "op"
-    /\ LET e == Ev IN
-       \/ /\ e.a \in ClientSyncs /\ cst[e.c] = "alive" /\ ~SyncedC(e.c) /\ UpdateClient(e.c)
-       \/ /\ e.a \in ServerSyncs /\ sst[e.s] = "alive" /\ ~SyncedS(e.s) /\ UpdateServer(e.s)
-       \/ /\ e.a = "ReceiveResponse"
-          /\ \E p \in pend[e.c] : p.n = e.n /\ \E s \in Servers : DropStale(e.c, s, p.ch)
-       \/ /\ e.a \in ClientSyncs /\ \E s \in Servers : ExpireGone(e.c, s)
-       \/ /\ e.a = "ReceiveRequest" /\ \E c \in Clients : SkipClosed(e.s, c)
-       \/ /\ e.a \in ServerSyncs /\ \E c \in Clients : LoseDead(e.s, c)
+    /\ SilentFor(Ev)
     /\ UNCHANGED l
 
 \* overlapping calls of concurrent executions: alternatives, see TraceIO.tla
